@@ -6,7 +6,7 @@
 // translates tokens to the real 64-bit values and back.
 //
 // reset: {"ev":"reset","kind":"cm|memdb|mem|ldb","keys":["<uint64>",..],"offs":["<offset in 8-byte units>",..]}
-// ops:   fill{base,n,stride,o,s}  put{k,o,s}  del{k,o}  get{k}  reload{how}  freeze{}
+// ops:   fill{base,n,stride,o,s}  put{k,o,s}  del{k,o}  get{k}  reload{how}  freeze{}  visit{} (cm, memdb)
 // after every state-changing op the driver appends   snap{got:[{f,o,s,k}..]}  (a Get of every
 // token key) and, for the NeedleMapper kinds,        cnt{fc,dc,fb,db,maxk}.
 package main
@@ -58,8 +58,11 @@ type impl interface {
 	Get(k uint64) got
 	Cnt() (fc, dc int, fb, db, maxk uint64, ok bool)
 	Reload(how string) error
+	Visit(func(needle_map.NeedleValue) error) error // nil function result = unsupported
 	Close()
 }
+
+var errNoVisit = fmt.Errorf("unsupported")
 
 func toOff(units int64) types.Offset { return types.ToOffset(units * types.NeedlePaddingSize) }
 func fromOff(o types.Offset) int64   { return o.ToActualOffset() / types.NeedlePaddingSize }
@@ -86,7 +89,10 @@ func (c *cmImpl) Cnt() (int, int, uint64, uint64, uint64, bool) {
 	return 0, 0, 0, 0, 0, false
 }
 func (c *cmImpl) Reload(how string) error { return fmt.Errorf("unsupported") }
-func (c *cmImpl) Close()                  {}
+func (c *cmImpl) Visit(f func(needle_map.NeedleValue) error) error {
+	return c.m.AscendingVisit(f)
+}
+func (c *cmImpl) Close() {}
 
 // ---- raw needle_map.MemDb; reload = SaveToIdx + LoadFromIdx into a new MemDb
 type memdbImpl struct {
@@ -116,6 +122,9 @@ func (c *memdbImpl) Reload(how string) error {
 	return c.m.LoadFromIdx(p)
 }
 func (c *memdbImpl) Close() { c.m.Close() }
+func (c *memdbImpl) Visit(f func(needle_map.NeedleValue) error) error {
+	return c.m.AscendingVisit(f)
+}
 
 // ---- storage.NeedleMapper kinds over <dir>/v.idx
 type mapperImpl struct {
@@ -177,6 +186,7 @@ func (c *mapperImpl) Reload(how string) error {
 	}
 	return c.open(true)
 }
+func (c *mapperImpl) Visit(f func(needle_map.NeedleValue) error) error { return errNoVisit }
 func (c *mapperImpl) Close() {
 	if c.nm != nil {
 		c.nm.Close()
@@ -302,6 +312,25 @@ func runExec(w *tr.Writer, ex []tr.Ev, dir string) {
 			case "get":
 				g := obs(im.Get(keys[tr.I(e, "k")]))
 				e["found"], e["o"], e["s"], e["key"] = g["f"], g["o"], g["s"], g["k"]
+			case "visit": // AscendingVisit: token entries in visiting order, number of other entries, order
+				ents := []tr.Ev{}
+				other, asc, first := 0, true, true
+				var prev uint64
+				err := im.Visit(func(nv needle_map.NeedleValue) error {
+					k := uint64(nv.Key)
+					if !first && k <= prev {
+						asc = false
+					}
+					first, prev = false, k
+					if t := keyTok(k); t >= 0 {
+						g := obs(got{found: true, off: fromOff(nv.Offset), size: int32(nv.Size), key: k})
+						ents = append(ents, tr.Ev{"k": t, "o": g["o"], "s": g["s"]})
+					} else {
+						other++
+					}
+					return nil
+				})
+				e["err"], e["ents"], e["other"], e["asc"] = errs(err), ents, other, asc
 			case "reload":
 				err := im.Reload(tr.S(e, "how"))
 				e["err"] = errs(err)
@@ -328,7 +357,7 @@ func runExec(w *tr.Writer, ex []tr.Ev, dir string) {
 		if stop {
 			return
 		}
-		if ev != "get" {
+		if ev != "get" && ev != "visit" {
 			after()
 		}
 	}
